@@ -112,6 +112,7 @@ type WorkerResult struct {
 	RapidSeeds    []uint64             `json:"rapid_seeds"`
 	WallS         float64              `json:"wall_s"`
 	Replay        *ReplayResult        `json:"replay,omitempty"`
+	Fine          bool                 `json:"fine"`
 }
 
 // ReplayFile is the on-disk replay format.
@@ -123,7 +124,10 @@ type ReplayFile struct {
 	Detail   string          `json:"detail"`
 	LogHash  uint64          `json:"log_hash"`
 	Scenario json.RawMessage `json:"scenario"`
-	Log      []string        `json:"event_log,omitempty"`
+	// Fine: the run used the copy of hc instrumented with yield points (finer interleavings);
+	// the replay needs the same build.
+	Fine bool     `json:"fine,omitempty"`
+	Log  []string `json:"event_log,omitempty"`
 }
 
 // ReplayResult is the outcome of a replay.
@@ -252,7 +256,8 @@ func drive(t *testing.T, p *PropDef) {
 	startWatchdog()
 	worker := int(envInt("VERIF_WORKER", 0))
 	seed := envInt("VERIF_SEED", 1)
-	res := &WorkerResult{Property: p.ID, Worker: worker, Seed: seed, Stats: map[string]int{}, Known: map[string]*KnownHit{}, Inconclusive: map[string]int{}}
+	fine := core.FineGrainedBuild && os.Getenv("VERIF_FINE") != ""
+	res := &WorkerResult{Fine: fine, Property: p.ID, Worker: worker, Seed: seed, Stats: map[string]int{}, Known: map[string]*KnownHit{}, Inconclusive: map[string]int{}}
 	start := time.Now()
 	known := loadKnown(p.ID)
 	replayDir := os.Getenv("VERIF_REPLAY_DIR")
@@ -348,7 +353,7 @@ func drive(t *testing.T, p *PropDef) {
 
 	saveReplay := func(sc interface{}, o *Outcome, rseed uint64) string {
 		sb, _ := json.Marshal(sc)
-		rf := ReplayFile{Property: p.ID, Seed: rseed, Class: o.Violation, Sig: o.Sig, Detail: o.Detail, LogHash: o.LogHash, Scenario: sb, Log: o.Log}
+		rf := ReplayFile{Fine: fine, Property: p.ID, Seed: rseed, Class: o.Violation, Sig: o.Sig, Detail: o.Detail, LogHash: o.LogHash, Scenario: sb, Log: o.Log}
 		if len(rf.Log) > 600 {
 			rf.Log = rf.Log[len(rf.Log)-600:]
 		}
@@ -382,7 +387,7 @@ func drive(t *testing.T, p *PropDef) {
 	runOnce := func(sc interface{}) *Outcome {
 		if p.CrashCapture && out != "" && (p.CrashCaptureIf == nil || p.CrashCaptureIf(sc)) {
 			sb, _ := json.Marshal(sc)
-			rf := ReplayFile{Property: p.ID, Class: p.ID + ":process-crash", Sig: "process-crash", Detail: "the process died while this scenario ran", Scenario: sb}
+			rf := ReplayFile{Fine: fine, Property: p.ID, Class: p.ID + ":process-crash", Sig: "process-crash", Detail: "the process died while this scenario ran", Scenario: sb}
 			b, _ := json.Marshal(rf)
 			os.WriteFile(out+".current", b, 0644)
 		}
